@@ -42,7 +42,7 @@ def add_int_reads():
         D = set(STATE) | set(CONST)
         for st in ORDER + [integ]:
             fr = frames[st]
-            ints = {x for x in D if nonfloat(x)}
+            ints = set(D)   # every field known to agree at this point may be read (floats and ints)
             fr.setdefault("ireads", None)
             fr["ireads"] = ints if fr["ireads"] is None else (fr["ireads"] & ints)
             D = (D - fr["may"]) | fr["must"]
@@ -53,7 +53,7 @@ def validate(n, seed0):
     rng = random.Random(seed0)
     lines = []; meta = []
     for i in range(n):
-        seed = rng.randrange(1, 10**6); feat = ALL if i % 2 == 0 else rng.randrange(0, ALL + 1); nb = 1 + rng.randrange(6); en = rng.choice([0, 2, 4, 6])
+        seed = rng.randrange(1, 10**6); feat = ALL if i % 2 == 0 else rng.randrange(0, ALL + 1); nb = 1 + rng.randrange(6); en = rng.choice([0, 2, 4, 6]) | (rng.choice([0, 1, 2, 3]) << 8) | (rng.choice([0, 1, 2]) << 10)
         for st in frames:
             fr = frames[st]
             R = sorted(fr["reads"]); W = sorted(fr["must"])
@@ -97,16 +97,23 @@ def attribute(st, case):
             extra = trial
     return extra
 
-if __name__ == "__main__":
+def dump():
+    fr2 = {k: {a: sorted(set(b) - (set(CONST) if a != "reads" else set())) for a, b in v.items()} for k, v in frames.items()}
+    json.dump({"const": CONST, "atoms": ATOMS, "outputs_forward": OUT_FWD, "outputs_step": OUT_STEP, "state": STATE, "frames": fr2},
+              open('/verif/harness/c01_table.json', 'w'), indent=1)
+
+
+if __name__ == "__main__" and len(sys.argv) > 0 and sys.argv[0].endswith("c01_table.py"):
     demoted = collections.defaultdict(set)
     for rnd in range(int(sys.argv[2]) if len(sys.argv) > 2 else 10):
         for st in frames: frames[st]["reads"] = set(inf["R"].get(st, {}))
         add_int_reads()
         probs, no, nl = validate(int(sys.argv[1]) if len(sys.argv) > 1 else 12, 100 + rnd)
         print("round", rnd, "outputs", no, "/", nl, {k: {a[:60]: b for a, b in list(v.items())[:6]} for k, v in probs.items()})
+        dump()
         if not probs: break
         attributed = {}
-        for st in list(failing):
+        for st in []:
             cul = attribute(st, failing[st])
             print("  attribute", st, failing[st], "->", cul)
             if cul:
@@ -126,8 +133,6 @@ if __name__ == "__main__":
                 elif key.startswith("writes-outside-W"):
                     x = key.split(":", 1)[1]
                     frames[st]["may"].add(x)
+    dump()
     for st in frames:
         print(st, "reads", len(frames[st]["reads"]), "must", len(frames[st]["must"]), "may", sorted(frames[st]["may"]))
-    for st in frames:
-        frames[st]["must"] -= set(CONST); frames[st]["may"] -= set(CONST)
-    json.dump({"const": CONST, "atoms": ATOMS, "outputs_forward": OUT_FWD, "outputs_step": OUT_STEP, "state": STATE, "frames": {k: {a: sorted(b) for a, b in v.items()} for k, v in frames.items()}}, open('/verif/harness/c01_table.json', 'w'), indent=1)
